@@ -20,8 +20,19 @@ POOL = [1e-9, 1e-6, 1e-3, 0.05, 0.3, 1.0, 4.0, 10.0]
 
 def run(tier, seed):
     rng = random.Random(seed)
-    T = Tally()
+    T = Tally(max_fail=8)
     quick = tier == 'quick'
+
+    # ---- directed cases first: an event in a zero-rate bin, array level and through the public tests
+    g = oe.GRIDS['2x2x2']
+    zr = [[0.0, 0.5], [0.5, 0.5], [0.5, 0.5], [0.5, 0.5]]
+    T.run('binary_jll_ndarray', {'rates': [0.0, 0.5], 'counts': [1, 0]}, key='d1')
+    T.run('sim_test_ndarray', {'kind': 'binary', 'rates': [[0.0, 0.5], [1.5, 2.0]], 'counts': [[2, 0], [0, 1]], 'num_simulations': 0,
+                               'checks': ['observed']}, key='d2')
+    T.run('gridded_test', {'test': 'bCL', 'grid': g, 'rates': zr, 'events': [[0, 0]], 'num_simulations': 0, 'checks': ['observed']}, key='d3')
+    T.run('gridded_test', {'test': 'bS', 'grid': g, 'rates': [[0.0, 0.0], [0.5, 0.5], [0.5, 0.5], [0.5, 0.5]], 'events': [[0, 1], [2, 0]],
+                           'num_simulations': 0, 'checks': ['observed']}, key='d4')
+    T.run('gridded_test', {'test': 'brier', 'grid': g, 'rates': zr, 'events': [[0, 0]], 'num_simulations': 0, 'checks': ['observed']}, key='d5')
 
     # ---- the two scores on arrays: exhaustive small scope
     ralpha = [0.0, 1e-9, 0.3, 10.0]
@@ -36,7 +47,7 @@ def run(tier, seed):
         for cc in itertools.product([0, 1, 4] if not quick else [0, 3], repeat=4):
             for orc in ('binary_jll_ndarray', 'brier_score_ndarray'):
                 T.run(orc, {'rates': [list(rr[:2]), list(rr[2:])], 'counts': [list(cc[:2]), list(cc[2:])]}, key=(orc, '2d', rr, cc))
-    for _ in range(40 if quick else 1500):
+    for _ in range(40 if quick else 8000):
         shape = rng.choice([(5,), (9,), (3, 2), (4, 3), (2, 5)])
         n = shape[0] * (shape[1] if len(shape) > 1 else 1)
         rr = [rng.choice(POOL + [0.0]) for _ in range(n)]
@@ -55,7 +66,7 @@ def run(tier, seed):
              ([[1e-6, 0.05, 1.0], [4.0, 0.3, 1e-3]], [[0, 5, 0], [1, 1, 0]]),
              ([0.0, 0.5, 1.5], [0, 1, 0]), ([0.5, 0.0, 1.5], [1, 0, 1]), ([0.5, 1.5, 0.0], [0, 2, 0]),      # zeros, inactive
              ([0.0, 0.5, 1.5], [1, 1, 0]), ([[0.5, 0.0], [1.5, 2.0]], [[0, 2], [0, 1]])]                    # event in a zero-rate bin
-    for _ in range(10 if quick else 300):
+    for _ in range(10 if quick else 1500):
         n = rng.randint(2, 7)
         rr = [rng.choice(POOL) for _ in range(n)]
         cases.append((rr, [rng.choice([0, 0, 1, 3]) for _ in range(n)]))
